@@ -3,6 +3,7 @@ package rgen
 import (
 	"google.golang.org/protobuf/proto"
 	"google.golang.org/protobuf/reflect/protoreflect"
+	"sort"
 
 	"verifharness/core"
 )
@@ -14,6 +15,28 @@ import (
 // Returns the number of sites changed.
 func AddEmptySubmessages(r *core.Rand, m proto.Message, num, den int) int {
 	return addEmpties(r, m.ProtoReflect(), num, den, 0)
+}
+
+// setFields returns the populated fields of m in a defined order (known fields by number, then extensions by number and
+// name). protoreflect's Range visits them "in an undefined order" - it differs between Go releases - and the generators
+// draw random numbers per field, so the order must not be left to it.
+func setFields(m protoreflect.Message) []protoreflect.FieldDescriptor {
+	var fds []protoreflect.FieldDescriptor
+	m.Range(func(fd protoreflect.FieldDescriptor, _ protoreflect.Value) bool {
+		fds = append(fds, fd)
+		return true
+	})
+	sort.Slice(fds, func(i, j int) bool {
+		a, b := fds[i], fds[j]
+		if a.IsExtension() != b.IsExtension() {
+			return !a.IsExtension()
+		}
+		if a.Number() != b.Number() {
+			return a.Number() < b.Number()
+		}
+		return a.FullName() < b.FullName()
+	})
+	return fds
 }
 
 func addEmpties(r *core.Rand, m protoreflect.Message, num, den, depth int) int {
@@ -58,12 +81,11 @@ func addEmpties(r *core.Rand, m protoreflect.Message, num, den, depth int) int {
 		}
 	}
 	// extension fields that are set (NYCT / Mercury payloads)
-	m.Range(func(fd protoreflect.FieldDescriptor, v protoreflect.Value) bool {
+	for _, fd := range setFields(m) {
 		if fd.IsExtension() && fd.Kind() == protoreflect.MessageKind && !fd.IsList() {
-			n += addEmpties(r, v.Message(), num, den, depth+1)
+			n += addEmpties(r, m.Get(fd).Message(), num, den, depth+1)
 		}
-		return true
-	})
+	}
 	return n
 }
 
@@ -105,7 +127,8 @@ func setOdd(r *core.Rand, m protoreflect.Message, num, den, depth int) int {
 		return 0
 	}
 	n := 0
-	m.Range(func(fd protoreflect.FieldDescriptor, v protoreflect.Value) bool {
+	for _, fd := range setFields(m) {
+		v := m.Get(fd)
 		switch {
 		case fd.Kind() == protoreflect.StringKind && !fd.IsList():
 			if r.Chance(num, den) {
@@ -128,8 +151,7 @@ func setOdd(r *core.Rand, m protoreflect.Message, num, den, depth int) int {
 		case fd.Kind() == protoreflect.MessageKind && !fd.IsMap():
 			n += setOdd(r, v.Message(), num, den, depth+1)
 		}
-		return true
-	})
+	}
 	return n
 }
 
@@ -148,7 +170,8 @@ func siblingWalk(r *core.Rand, m protoreflect.Message, num, den, depth int) {
 		return
 	}
 	isEntity := m.Descriptor().FullName() == "transit_realtime.FeedEntity"
-	m.Range(func(fd protoreflect.FieldDescriptor, v protoreflect.Value) bool {
+	for _, fd := range setFields(m) {
+		v := m.Get(fd)
 		if fd.IsList() {
 			if fd.Kind() == protoreflect.MessageKind {
 				l := v.List()
@@ -156,10 +179,10 @@ func siblingWalk(r *core.Rand, m protoreflect.Message, num, den, depth int) {
 					siblingWalk(r, l.Get(k).Message(), num, den, depth+1)
 				}
 			}
-			return true
+			continue
 		}
 		if fd.IsMap() || (isEntity && fd.Name() == "id") {
-			return true
+			continue
 		}
 		switch fd.Kind() {
 		case protoreflect.MessageKind:
@@ -197,6 +220,5 @@ func siblingWalk(r *core.Rand, m protoreflect.Message, num, den, depth int) {
 				m.Set(fd, protoreflect.ValueOfBool(!v.Bool()))
 			}
 		}
-		return true
-	})
+	}
 }
